@@ -166,7 +166,8 @@ Theorem C02_tidy_remove_preserves_trace_stage2 : forall bi ns p, u2_block p = tr
 Proof. exact tidy_remove_preserves_trace_stage2. Qed.
 Print Assumptions C02_tidy_remove_preserves_trace_stage2.
 (* the same with the report fix_unused_and_missing_imports computes (parse_docstrings=True) and the trace that includes
-   doctest examples (a stage-2 program has no docstring statement) *)
+   doctest examples (the docstring / string statements of a stage-2 program hold no doctest example and no {brace}
+   identifier, so the two reports and the two traces coincide) *)
 Theorem C02_tidy_fix_preserves_trace_stage2 : forall bi ns p, u2_block p = true -> star_free bi ns = true ->
   imports_once bi ns p = true -> NoDup (imp_events (bsrcs_block false p)) ->
   pysem_doc bi ns (remove_top (in_report (snd (finder_doc bi ns p))) p) = pysem_doc bi ns p.
@@ -253,3 +254,8 @@ Example C02_nonvacuous_stage3 :
   snd (finder [] [[]] true P_u3) = [(2%nat, ([132], [133])); (6%nat, ([140], [138]))] /\
   In (4%nat, 131, Bound (BImp 1 ([130], [131]))) (pysem [] [[]] P_u3) /\ In (5%nat, 138, Unbound) (pysem [] [[]] P_u3).
 Proof. vm_compute. repeat split; auto 20. Qed.
+
+(* docstrings without doctest examples are inside the fragments *)
+Example C02_plain_docstring_in_fragment :
+  u3_block [SDoc 1 [] []; SImport 2 [([150], None)]; SDef 3 151 [] P0 None [SDoc 4 [] []; SExpr 5 (ELoad 150 [152])]] = true.
+Proof. reflexivity. Qed.
